@@ -584,12 +584,26 @@ func writeOverlay(repo, root, pkgDir, dir string, tries int) error {
 				src := string(b)
 				changed := false
 				keep := ""
+				// local names under which this file imports each package (by last path element)
+				locals := map[string][]string{}
+				for _, im := range importRe.FindAllStringSubmatch(src, -1) {
+					path := im[2]
+					base := path[strings.LastIndex(path, "/")+1:]
+					base = strings.TrimSuffix(base, ".v3")
+					local := im[1]
+					if local == "" {
+						local = base
+					}
+					locals[base] = append(locals[base], local)
+				}
 				for _, st := range stubs {
-					call := st.pkg + "." + st.fn + "("
-					if strings.Contains(src, call) {
-						src = strings.ReplaceAll(src, call, "vfStub_"+st.pkg+"_"+st.fn+"(")
-						keep += "\nvar _ = " + st.pkg + "." + st.fn
-						changed = true
+					for _, local := range locals[st.pkg] {
+						callRe := regexp.MustCompile(`\b` + regexp.QuoteMeta(local) + `\.` + regexp.QuoteMeta(st.fn) + `\(`)
+						if callRe.MatchString(src) {
+							src = callRe.ReplaceAllString(src, "vfStub_"+st.pkg+"_"+st.fn+"(")
+							keep += "\nvar _ = " + local + "." + st.fn
+							changed = true
+						}
 					}
 				}
 				if changed {
@@ -755,6 +769,9 @@ func runReplay(repo, dir string) (bool, string) {
 }
 
 var replayMu sync.Mutex
+
+// importRe matches one import spec line: optional local name and the path.
+var importRe = regexp.MustCompile(`(?m)^\s*(?:import\s+)?([A-Za-z_][A-Za-z0-9_]*)?\s*"([^"]+)"\s*$`)
 
 func replayViolation(ctx *runCtx, h HSpec, v engine.Violation, dir string) (bool, string) {
 	replayMu.Lock()
